@@ -3,13 +3,14 @@
 EXTENDS Integers, TLC, Json
 CONSTANT Tier
 Grid == [rate : {0, 2000, 10000, 50000}, burst : {0, 500, 1000, 8192}, total : {0, 1, 2, 3}, latency : {0, 120},
-         buf : {1, 100, 4096, 65536}, conns : {1, 2, 4}, via : {"direct", "sub"}]
+         buf : {1, 100, 4096, 65536}, conns : {1, 2, 4}, via : {"direct", "sub", "presub"}]
 \* total: 0 = no total limit, 1 = total limit equal to one connection's, 2 = total only, 3 = no limit at all (latency only)
 Valid(g) == /\ (g.rate = 0) = (g.burst = 0 /\ g.total \in {2, 3})
             /\ (g.total \in {2, 3} => g.rate = 0)
             /\ (g.total = 3 => g.latency > 0)
             \* via "sub": inside a subroute with a 300 ms matching timeout, followed by a route that needs data and says no
-            /\ (g.via = "sub" => (g.rate = 10000 /\ g.burst = 1000 /\ g.total = 0 /\ g.latency = 0 /\ g.conns = 1 /\ g.buf \in {100, 65536}))
+            \* via "presub": in front of a subroute whose reading matcher needs 1.5 bursts: matching takes several throttled rounds
+            /\ (g.via \in {"sub", "presub"} => (g.rate = 10000 /\ g.burst = 1000 /\ g.total = 0 /\ g.latency = 0 /\ g.conns = 1 /\ g.buf \in {100, 65536}))
             /\ (g.buf = 1 => g.rate <= 2000 /\ g.total # 2)
 QuickGrid == { g \in Grid : Valid(g) /\ g.rate \in {0, 10000, 50000} /\ g.burst \in {0, 1000, 8192} /\ g.buf \in {100, 65536} /\ g.conns \in {1, 4} }
 VARIABLE g
